@@ -37,16 +37,49 @@ class KeyModel(object):
         self.protected = False
 
 
+# what another implementation may put into the hashed area of a self-certification (all legal RFC 4880 5.2.3.1 encodings that
+# PGPy would itself write differently): five-octet length forms for short subpackets, a private-use subpacket, unknown flag bits,
+# a boolean octet other than 0/1
+QUIRKS = [
+    lambda: b'',
+    lambda: keypool.sp(20, bytes([0x80, 0, 0, 0, 0, 3, 0, 2]) + b'n@x' + b'ok', lenform=5),
+    lambda: keypool.sp(23, b'\xC1') + keypool.sp(100, b'private use', lenform=5),
+    lambda: keypool.sp(7, b'\x02') + keypool.sp(24, b'hkp://keys.example.org', lenform=5),
+]
+FOREIGN_SUBS = ['cv25519-0@8,7', 'ecdh-p384-0@9,9', 'ed25519-1', 'ecdh-p256-0@10,9', 'cv25519-1@10,9', 'rsa1024-1', 'ecdh-p521-0@8,7']
+FOREIGN_PREFS = {'ciphers': [9, 8, 7, 13, 12, 11, 3, 4, 2], 'hashes': [8, 9, 10, 11, 2], 'compression': [2, 3, 1, 0]}
+
+
 class State(object):
-    def __init__(self, kids):
+    def __init__(self, kids, start=None):
+        """start: per key None (a bare secret key packet from the pool) or [name index, [subkey indices], quirk index]: a complete
+        transferable secret key made by the reference implementation the way another OpenPGP implementation would write it"""
         self.keys = []
         self.models = []
         self.held = []        # (key index, twin object, step) -- public twins taken earlier and still referenced
         self.ops = []
         self.clock = 0
-        for kid in kids:
-            self.keys.append(keypool.pgpy_key(wire.build_packet(5, keypool.secret_body(kid))))
-            self.models.append(KeyModel(kid))
+        for n, kid in enumerate(kids):
+            fs = (start or [None] * len(kids))[n]
+            m = KeyModel(kid)
+            if fs is None:
+                self.keys.append(keypool.pgpy_key(wire.build_packet(5, keypool.secret_body(kid))))
+            else:
+                t0 = BASE - 5000
+                name = NAMES[fs[0] % len(NAMES)]
+                subs = []
+                for si in fs[1][:2]:
+                    skid = FOREIGN_SUBS[si % len(FOREIGN_SUBS)]
+                    if skid not in [x[0] for x in subs] and keypool.public_body(skid) != keypool.public_body(kid):
+                        subs.append((skid, keykit.sub_usage(skid)))
+                blob = keypool.ref_cert(kid, uids=(name,), subkeys=tuple(subs), secret=True, sig_time=t0, uid_extra=QUIRKS[fs[2] % len(QUIRKS)]())
+                self.keys.append(keypool.pgpy_key(blob))
+                m.uids.append({'kind': 'uid', 'text': name, 'revocations': 0, 'certs3': [],
+                               'selfsigs': [{'t': t0, 'flags': 0x03, 'prefs': FOREIGN_PREFS, 'primary': True, 'kexp': None}]})
+                for skid, usage in subs:
+                    m.subs.append({'kid': skid, 'fpr': keypool.ref_public(skid).fingerprint.hex().upper(), 'bindings': [(t0, usage)], 'revocations': 0})
+                m.foreign = True
+            self.models.append(m)
 
 
 class Skip(Exception):
@@ -528,14 +561,21 @@ PREFIXES = [
 
 def history_strategy(max_ops):
     from hypothesis import strategies as st
-    return st.builds(lambda kids, pre, ops: {'kids': kids, 'ops': [list(o) for o in PREFIXES[pre]] + ops},
-                     st.lists(st.sampled_from(PRIMARIES), min_size=2, max_size=2, unique=True), st.integers(0, len(PREFIXES) - 1),
-                     st.lists(op_strategy(), min_size=1, max_size=max_ops))
+    i = st.integers(0, 11)
+    foreign = st.one_of(st.none(), st.tuples(i, st.lists(i, max_size=2), i).map(list))
+
+    def build(kids, pre, ops, start):
+        case = {'kids': kids, 'ops': [list(o) for o in PREFIXES[pre]] + ops}
+        if any(x is not None for x in start):
+            case['start'] = start
+        return case
+    return st.builds(build, st.lists(st.sampled_from(PRIMARIES), min_size=2, max_size=2, unique=True), st.integers(0, len(PREFIXES) - 1),
+                     st.lists(op_strategy(), min_size=1, max_size=max_ops), st.lists(foreign, min_size=2, max_size=2))
 
 
 def run_ops(case, inv, check_every=True):
     """-> (findings [(clause, cause, detail)], applied operation names)"""
-    st_ = State(case['kids'])
+    st_ = State(case['kids'], case.get('start'))
     applied = []
     for n, op in enumerate(case['ops']):
         try:
